@@ -197,6 +197,7 @@ func c07Handwritten(dir, t, u string) []string {
 	b.WriteString("{\"l\":[1,\"a\"],\"o\":{\"z\":1},\"x\":\"s\"}\n{\"l\":{},\"o\":[1],\"x\":[2]}\n")
 	os.WriteFile(late, []byte(b.String()), 0o644)
 	var out []string
+	var rawList []string
 	for _, q := range []string{
 		"SELECT * FROM range(start=>0, end=>0) r", "SELECT * FROM range(start=>3, end=>-3) r", "SELECT * FROM range(start=>NULL, end=>1) r", "SELECT * FROM range(end=>1) r", "SELECT * FROM range(start=>0, end=>1, step=>0) r",
 		"SELECT * FROM range(start=>'a', end=>1) r", "SELECT * FROM range(0, 1) r", "SELECT * FROM range(start=>0, end=>9223372036854775807) r LIMIT 1", "SELECT * FROM range(start=>TABLE(%[1]s), end=>1) r",
@@ -230,6 +231,28 @@ func c07Handwritten(dir, t, u string) []string {
 		"SELECT * FROM docs.functions f LIMIT 2", "SELECT * FROM plugins.plugins p", "SELECT * FROM docs.nosuch", "SELECT * FROM nosuch.json", "SELECT * FROM /nonexistent/dir/x.csv t", "SELECT * FROM %[1]s?sep=x t", "SELECT * FROM `%[1]s?a=` t",
 		"SELECT", "", "SELECT * FROM", "SELECT 1 FROM dual WHERE", "SELECT 'unterminated", "SELECT `a", "SELECT * FROM %[1]s t WHERE t.a = 1 AND", "((((((((((SELECT 1))))))))))", "SELECT 1; SELECT 2", "INSERT INTO t VALUES (1)", "SELECT * FROM %[1]s t UNION SELECT * FROM %[1]s t",
 	} {
+		rawList = append(rawList, q)
+	}
+	// aggregates over a retracting source (a counting-triggered group-by below): the input of a group changes from
+	// a value to NULL and back, so every non-NULL input can be retracted while a NULL input keeps the group alive
+	var retracting []string
+	for _, agg := range []string{"max", "min", "avg", "sum", "count", "array_agg"} {
+		for _, inner := range []string{"SELECT t.b AS k, COUNT(*) AS c FROM %[1]s t GROUP BY t.b TRIGGER COUNTING 1", "SELECT t.c AS k, COUNT(*) AS c FROM %[1]s t GROUP BY t.c TRIGGER COUNTING 1, ON END OF STREAM"} {
+			for _, arg := range []string{"int(substr('1x', q.c - 1, 1))", "int(substr('x1', q.c - 1, 1))", "q.c"} {
+				retracting = append(retracting, fmt.Sprintf("SELECT %s(%s) AS r FROM (%s) q", agg, arg, inner))
+				retracting = append(retracting, fmt.Sprintf("SELECT q.k, %s(%s) AS r FROM (%s) q GROUP BY q.k", agg, arg, inner))
+				retracting = append(retracting, fmt.Sprintf("SELECT %s(%s) AS r FROM (%s) q GROUP BY q.k TRIGGER COUNTING 2", agg, arg, inner))
+			}
+		}
+	}
+	// two keys that are both counted up to 2, so that in the outer group the last non-NULL input is retracted while
+	// the other key's NULL input is still there
+	two := filepath.Join(dir, "twokeys.csv")
+	os.WriteFile(two, []byte("b,c\np,u\nq,v\np,u\nq,v\np,u\n"), 0o644)
+	for _, q := range retracting {
+		out = append(out, fmt.Sprintf(q, t), fmt.Sprintf(q, two))
+	}
+	for _, q := range rawList {
 		if strings.Contains(q, "%[") {
 			q = fmt.Sprintf(q, t, u, late)
 			q = strings.ReplaceAll(q, "%!(EXTRA string="+late+")", "")
